@@ -24,7 +24,8 @@ RULE = ("(a) random programs of the C01 generator (incl. --stop, abort, hook fau
 ASSUMPTIONS = [
     "containers without children are out of scope (as in the statement)",
     "which of error/failed wins when both occur inside one element is left open",
-    "own hook failure is read from the element's public hook_failed flag (attribution itself is C12's subject)",
+    "own hook failure is taken from the reference model for runs with raising hooks only (element names unique); otherwise "
+    "(interrupts, aborts, run-time skips, re-runs) from the element's public hook_failed flag (attribution is C12's subject)",
 ]
 SIMPLIFY = {"o": lambda v: "pass" if not v.startswith("<") and v != "act" else None, "tagx": "nullable",
             "bg": "nullable"}
@@ -93,13 +94,34 @@ def check_element(res, kind, name, actual, children, hook_failed=False, cleanup_
 def check_model(res, features, ref=None):
     from behave.model import Rule, ScenarioOutline
     cleanup_failed = set(ref.cleanup_error_elems) if ref is not None else set()
+    # whose hooks raised is taken from the reference model (which hook call raised is generated; attribution to the
+    # element is C12's subject and holds there), not from the flags of the model under test -- unless the run
+    # contained interrupts / aborts / run-time skips, whose effect on later hooks the flags describe
+    hook_truth = None
+    if ref is not None and not (set(getattr(ref, "fault_kinds", ())) - set(["Exception", "AssertionError", "Exception0",
+                                                                               "AssertionError0"])):
+        hook_truth = set(ref.hook_error_elems)
+
+    def own_hook_failed(kind, elem):
+        if hook_truth is not None and names_count.get((kind, elem.name), 0) == 1:
+            return (kind, elem.name) in hook_truth
+        return bool(elem.hook_failed)
+
+    names_count = {}
+    for f in features:
+        names_count[("feature", f.name)] = names_count.get(("feature", f.name), 0) + 1
+        for x in f.run_items:
+            if isinstance(x, Rule):
+                names_count[("rule", x.name)] = names_count.get(("rule", x.name), 0) + 1
+        for s in f.walk_scenarios():
+            names_count[("scenario", s.name)] = names_count.get(("scenario", s.name), 0) + 1
 
     # NOTE: the status of an element is read BEFORE its children are looked at, as a
     #       reporter would do (reading .scenarios of an outline builds its rows lazily).
     def scen(s):
         actual = s.status.name
         children = [st.status.name for st in s.all_steps]
-        check_element(res, "scenario", s.name, actual, children, bool(s.hook_failed),
+        check_element(res, "scenario", s.name, actual, children, own_hook_failed("scenario", s),
                       ("scenario", s.name) in cleanup_failed)
         return s.status.name
 
@@ -107,7 +129,7 @@ def check_model(res, features, ref=None):
         actual = x.status.name
         if isinstance(x, Rule):
             children = [item(y) for y in x.run_items]
-            check_element(res, "rule", x.name, actual, children, bool(x.hook_failed),
+            check_element(res, "rule", x.name, actual, children, own_hook_failed("rule", x),
                           ("rule", x.name) in cleanup_failed)
             return x.status.name
         if isinstance(x, ScenarioOutline):
@@ -119,7 +141,7 @@ def check_model(res, features, ref=None):
     for f in features:
         actual = f.status.name
         children = [item(x) for x in f.run_items]
-        check_element(res, "feature", f.name, actual, children, bool(f.hook_failed),
+        check_element(res, "feature", f.name, actual, children, own_hook_failed("feature", f),
                       ("feature", f.name) in cleanup_failed)
 
 
